@@ -223,7 +223,7 @@ type ContentSpec struct {
 	// source cannot be opened any more when the message is rendered although it could when it
 	// was attached — sources "fs" and "file" only; FailAt is irrelevant) | seek (source
 	// "readseeker" only: every Read works, Seek fails) | isdir (source "file" only: the path
-	// opens, reading fails)
+	// opens, reading fails) | close (source "fs" only: every Read works, Close reports an error)
 	ErrKind string `json:"errKind,omitempty"`
 }
 
@@ -423,7 +423,7 @@ func (r *faultReader) Read(b []byte) (int, error) {
 	}
 	data := p.Spec.Data
 	limit := len(data)
-	fail := p.failing() && p.Spec.ErrKind != "seek" // "seek": reads are fine, the rewind is not
+	fail := p.failing() && p.Spec.ErrKind != "seek" && p.Spec.ErrKind != "close" // reads are fine there
 	if fail && p.Spec.FailAt < limit {
 		limit = p.Spec.FailAt
 	}
@@ -511,7 +511,15 @@ func (f *faultFile) Stat() (fs.FileInfo, error) {
 	m := fstest.MapFS{f.name: &fstest.MapFile{Data: f.p.Spec.Data}}
 	return m.Stat(f.name)
 }
-func (f *faultFile) Close() error { return nil }
+func (f *faultFile) Close() error {
+	if p := f.p; p.Spec.Fail && p.Spec.ErrKind == "close" && (p.Spec.FailOnCall == 0 || p.Spec.FailOnCall == p.Calls) {
+		// everything could be read, closing the source reports an error (a network file system
+		// telling about a failed read-ahead, for instance): the producer has failed
+		p.Fired++
+		return &fs.PathError{Op: "close", Path: f.name, Err: errors.New("input/output error")}
+	}
+	return nil
+}
 
 // Built is a constructed message with handles on its producers.
 type Built struct {
